@@ -168,6 +168,8 @@ def step (d : DSt) (ws : List String) : DSt × String :=
     match n.toNat? with
     | some n => (d, s!"wide ok inits={n}/{n} hits={n}/{n} then={min n 3}/{min n 3}")
     | none => (d, "bad-op")
+  | ["delay", _, _] => (d, "ok")
+  | ["work", _] => (d, "ok")
   | ["nested", k, j] =>
     match k.toNat?, j.toNat? with
     | some k, some j =>
